@@ -953,6 +953,104 @@ func c10RetryFlow(c *core.Ctx, r *c10retry, foreign ast.Node) {
 	if r.sched != nil && r.sched.loop != nil {
 		waitLoop, waitBody = r.sched.loop, r.sched.loop.Body
 	}
+	// scale classifies `x *= K` / `x = x * K` for variable x: the constant factor, or nil
+	scaleOf := func(as *ast.AssignStmt, x types.Object) ast.Expr {
+		if len(as.Lhs) != 1 || len(as.Rhs) != 1 {
+			return nil
+		}
+		switch as.Tok {
+		case token.MUL_ASSIGN:
+			return as.Rhs[0]
+		case token.ASSIGN:
+			if b, ok := isTok(as.Rhs[0], token.MUL); ok {
+				if id := c10ident(b.X); id != nil && c10obj(f, id) == x {
+					return b.Y
+				} else if id := c10ident(b.Y); id != nil && c10obj(f, id) == x {
+					return b.X
+				}
+			}
+		}
+		return nil
+	}
+	grade := func(at ast.Node, factor ast.Expr, name string) {
+		k, isConst := 0.0, false
+		if factor != nil {
+			k, isConst = c10constFloat(f, factor)
+		}
+		switch {
+		case factor == nil || !isConst:
+			growthShape = "write to the loop-carried wait variable " + name + " is not a multiplication by a constant"
+			growthBadAt = at
+		case k <= 1:
+			growthBad = sprintf("the loop-carried wait variable %s is multiplied by %v (not > 1): the back-off does not grow", name, k)
+			growthBadAt = at
+		default:
+			growth[at] = true
+		}
+	}
+	classifyHelper := func(fd *ast.FuncDecl, call *ast.CallExpr, v types.Object) bool {
+		// the parameter bound to v
+		var param types.Object
+		k := 0
+		if fd.Type.Params != nil {
+			for _, fld := range fd.Type.Params.List {
+				if len(fld.Names) == 0 {
+					k++
+					continue
+				}
+				for _, name := range fld.Names {
+					if k < len(call.Args) {
+						if id := c10ident(call.Args[k]); id != nil && c10obj(f, id) == v {
+							param = f.Info.Defs[name]
+						}
+					}
+					k++
+				}
+			}
+		}
+		if param == nil || fd.Type.Results == nil || len(fd.Type.Results.List) != 1 {
+			return false
+		}
+		okAll := true
+		ast.Inspect(fd.Body, func(n ast.Node) bool {
+			switch x := n.(type) {
+			case *ast.FuncLit:
+				return false
+			case *ast.AssignStmt:
+				for _, l := range x.Lhs {
+					if id := c10ident(l); id != nil && c10obj(f, id) == param {
+						grade(x, scaleOf(x, param), v.Name())
+					}
+				}
+			case *ast.IncDecStmt:
+				if id := c10ident(x.X); id != nil && c10obj(f, id) == param {
+					okAll = false
+				}
+			case *ast.ReturnStmt:
+				if len(x.Results) != 1 {
+					okAll = false
+					return true
+				}
+				res := ast.Unparen(x.Results[0])
+				if id := c10ident(res); id != nil && c10obj(f, id) == param {
+					return true // returns the (possibly scaled) parameter
+				}
+				if b, ok := isTok(res, token.MUL); ok {
+					if id := c10ident(b.X); id != nil && c10obj(f, id) == param {
+						grade(x, b.Y, v.Name())
+						return true
+					}
+					if id := c10ident(b.Y); id != nil && c10obj(f, id) == param {
+						grade(x, b.X, v.Name())
+						return true
+					}
+				}
+				okAll = false
+			}
+			return true
+		})
+		return okAll
+	}
 	for v := range slice {
 		if v.Pos() >= waitLoop.Pos() && v.Pos() < waitLoop.End() {
 			continue // per-iteration variable
@@ -962,6 +1060,19 @@ func c10RetryFlow(c *core.Ctx, r *c10retry, foreign ast.Node) {
 		}
 		for _, w := range c10writes(f, waitBody, v) {
 			as, ok := w.at.(*ast.AssignStmt)
+			if ok && len(as.Lhs) == 1 && len(as.Rhs) == 1 && as.Tok == token.ASSIGN {
+				// base = p.nextBase(base): the growth statements are the writes to (and scaled returns
+				// of) the helper's parameter that receives the variable
+				if call, isCall := ast.Unparen(as.Rhs[0]).(*ast.CallExpr); isCall {
+					if fo, isFn := f.Callee(call).(*types.Func); isFn && fo.Pkg() == f.Pkg.Types {
+						if fd := declOf(f.Pkg, fo); fd != nil {
+							if classifyHelper(fd, call, v) {
+								continue
+							}
+						}
+					}
+				}
+			}
 			if !ok || len(as.Lhs) != 1 || len(as.Rhs) != 1 {
 				growthShape = "write to the loop-carried wait variable " + v.Name() + " is not a simple assignment"
 				growthBadAt = w.at
@@ -1038,6 +1149,10 @@ func c10RetryFlow(c *core.Ctx, r *c10retry, foreign ast.Node) {
 		return expAtoms
 	}
 	expAtoms := expAtomsOf(f.Body, r.pm)
+	for _, g := range r.fs[1:] {
+		// predicates / helpers of the unit (p.isExponential(), p.nextBase(base)): interpreted in place
+		expAtoms = append(expAtoms, expAtomsOf(g.Body, parentMap(g.Body))...)
+	}
 	expValOf := func(atoms []expAtom) func(st *flow.State) flow.Val {
 		return func(st *flow.State) flow.Val {
 			for _, a := range atoms {
